@@ -162,7 +162,7 @@ func VerifC13Frozen() {
 // VerifC08Buffer: a bitmap loaded zero-copy from a caller buffer (write-protected in the VM) never writes it, whatever
 // mutations follow; after CloneCopyOnWriteContainers the buffer can be scribbled over.
 //
-//	params: ld (0 FromBuffer, 1 FromUnsafeBytes, 2 FrozenView), steps, detach (1: detach then overwrite buffer), a*, b* (partner bitmap), xb, xm
+//	params: ld (0 FromBuffer, 1 FromUnsafeBytes, 2 FrozenView), steps, detach (1: detach then overwrite buffer), reuse (1: the receiver was used and cleared before), a*, b* (partner bitmap), xb, xm
 func VerifC08Buffer() {
 	a, da := vGenBitmap("a")
 	var data []byte
@@ -176,6 +176,14 @@ func VerifC08Buffer() {
 	vsym.Assert(err == nil, "write-ok")
 	buf := vsym.FrozenCopy(data) // the caller's (read-only) buffer
 	z := NewBitmap()
+	if vsym.Param("reuse") == 1 {
+		// a receiver that has been used before: its flag slice is longer than needed and holds stale values
+		z.Add(5)
+		z.Add(1<<20 | 7)
+		z.Add(1<<21 | 7)
+		z.Add(1<<22 | 7)
+		z.Clear()
+	}
 	switch ld {
 	case 0:
 		_, err = z.FromBuffer(buf)
@@ -246,6 +254,29 @@ func VerifC08Buffer() {
 			}
 			// requires concrete keys on both sides (akeys = bkeys = 4): the model of the result is built slot-wise
 			model = vBDescBinop(op, model, dob)
+		case 9:
+			// the zero-copy bitmap as ARGUMENT of an in-place union / symmetric difference of an ordinary bitmap, which is
+			// then mutated: chunks taken over from the argument still live in the caller's buffer
+			if o == nil {
+				o, dob = vGenBitmap("b")
+			}
+			op := vOpOr
+			if vsym.Param("bop") == 2 {
+				op = vOpXor
+				o.Xor(z)
+			} else {
+				o.Or(z)
+			}
+			om := vBDescBinop(op, dob, model)
+			vBitmapExact(o, om.spec(), false)
+			x := vArg32()
+			o.Remove(x)
+			om = om.withPoint(vOpAndNot, x)
+			vBitmapExact(o, om.spec(), false)
+			y := vArg32()
+			o.Add(y)
+			om = om.withPoint(vOpOr, y)
+			vBitmapExact(o, om.spec(), false)
 		case 8:
 			// derived bitmap mutated in turn; the zero-copy bitmap as argument
 			c := z.Clone()
